@@ -20,5 +20,5 @@ for c in $CHECKS; do
 done
 rm -rf $S
 # binaries and mod files built against the scratch copy
-rm -f $ROOT/.bin/*.alt*.test; rm -rf $ROOT/.tmp/alt-[0-9a-f]*
+rm -f $ROOT/.bin/*.alt*.test; rm -rf $ROOT/.tmp/alt-[0-9a-f][0-9a-f][0-9a-f][0-9a-f][0-9a-f][0-9a-f][0-9a-f][0-9a-f]
 exit $rc
